@@ -233,7 +233,43 @@ class World:
         self.inst = self.app._instance_manager._instances[self.id]["instance"]
         self.client = c
         self.has_try_lock = hasattr(self.inst, "try_lock")
+        self.flag_attr = self._find_flag()               # None: the flag is session_state["lock"]; else the attribute's name
         self._instrument()
+
+    def _begin(self):
+        return self.client.post(f"/{self.id}/begin-session",
+                                json={"scenario_managers": [SM], "scenarios": [SC], "equations": ["stock", "flow"]})
+
+    def _find_flag(self):
+        """where does lock() write?  (probed, not assumed: the recorder must sit on the real flag)"""
+        r = self._begin()
+        assert r.status_code == 200, r.data
+        inst, cls = self.inst, type(self.inst)
+        before = {k: v for k, v in vars(inst).items() if isinstance(v, bool)}
+        cls.lock(inst)
+        changed = [k for k, v in vars(inst).items() if isinstance(v, bool) and before.get(k) != v]
+        on_state = bool(inst.session_state.get("lock"))
+        cls.unlock(inst)
+        if changed and not on_state:
+            return changed[0]
+        return None
+
+    def flag_raw(self):
+        """the stored flag, read without recording (None: there is no place for it right now)"""
+        if self.flag_attr is not None:
+            return bool(self.inst.__dict__.get("_rec_" + self.flag_attr, False))
+        st = self.inst.session_state
+        return None if st is None else bool(dict.get(st, "lock", False))
+
+    def flag_force(self, v):
+        if self.flag_attr is not None:
+            self.inst.__dict__["_rec_" + self.flag_attr] = bool(v)
+        elif self.inst.session_state is not None:
+            dict.__setitem__(self.inst.session_state, "lock", bool(v))
+
+    def is_locked_now(self):
+        """what is_locked() answers (class code, unrecorded: called from the controller thread)"""
+        return bool(type(self.inst).is_locked(self.inst))
 
     def _instrument(self):
         """Guards of the instance.  The accesses to the lock flag are recorded where they happen (`RecDict`).  Whether a test and a set of the lock flag form ONE action is not read off a method name: an
@@ -250,6 +286,19 @@ class World:
                 g = GuardProxy(v)
                 setattr(inst, k, g)
                 self.guards.append(k)
+        if self.flag_attr is not None:                   # the flag is an attribute: record it through a property
+            name = self.flag_attr
+
+            def fget(obj):
+                lock_flag_access(False, None)
+                return obj.__dict__.get("_rec_" + name, False)
+
+            def fset(obj, v):
+                lock_flag_access(True, v)
+                obj.__dict__["_rec_" + name] = v
+            val = inst.__dict__.pop(name)
+            inst.__class__ = type(cls.__name__, (cls,), {name: property(fget, fset)})
+            inst.__dict__["_rec_" + name] = val
 
         runner = self.bmod.SdRunner
         self._orig_sim = runner.run_scenario_step
@@ -276,18 +325,27 @@ class World:
                 self.app._bptk.destroy()
 
     def reset(self, stop):
-        r = self.client.post(f"/{self.id}/begin-session",
-                             json={"scenario_managers": [SM], "scenarios": [SC], "equations": ["stock", "flow"]})
+        r = self._begin()
+        if r.status_code != 200 or self.is_locked_now():  # a flag left set by an earlier run must not poison this one
+            self.flag_force(False)
+            r = self._begin()
         assert r.status_code == 200, r.data
         st = RecDict(self.inst.session_state)
         dict.__setitem__(st, "stoptime", float(stop))
         self.inst.session_state = st
 
     def clock(self):
-        return int(round(dict.__getitem__(self.inst.session_state, "step")))
+        st = self.inst.session_state
+        return -1 if st is None else int(round(dict.__getitem__(st, "step")))
 
     def locked(self):
-        return bool(dict.get(self.inst.session_state, "lock", False))
+        return bool(self.flag_raw())
+
+    def rewrap(self):
+        """after a session request replaced session_state: record the new one as well"""
+        st = self.inst.session_state
+        if st is not None and not isinstance(st, RecDict):
+            self.inst.session_state = RecDict(st)
 
     # -- one request as a WSGI call (what a server thread does)
     def request(self, tid, kind, n, gone_after, out):
@@ -568,6 +626,7 @@ def reference(scn, rec):
     holders = set()
     how_ended = {}
     stepping = {}            # tid -> inside run_step (between RS of run_step and WS)
+    nsim = {}
     overlap_multi = overlap_p = False
     stolen = None            # a request that never acquired cleared the flag while another one holds the lock
     acquirers = {t for t, l, i, f in rec["log"] if l == "SL" or (l == "TAS" and i)}
@@ -602,7 +661,8 @@ def reference(scn, rec):
                 if busy:
                     key = "run-step-without-lock" if any(kinds[b] == "p" and b not in acquirers for b in busy + [tid]) else "lock-check-then-act"
                     out.append((key, f"requests {busy + [tid]} are inside run_step at the same time"))
-                stepping[tid] = True
+                nsim[tid] = nsim.get(tid, 0) + 1
+                stepping[tid] = scn.fail.get(tid) != nsim[tid] - 1      # an injected failure ends run_step at once
     produced = [int(round(info)) - 1 for tid, lab, info, folded in rec["log"] if lab == "WS"]
     if len(set(produced)) != len(produced):
         dup = sorted({p for p in produced if produced.count(p) > 1})
@@ -865,9 +925,22 @@ class StubInstance:
         self._tas = None
         st = {k: dict.__getitem__(world.inst.session_state, k) for k in dict.keys(world.inst.session_state)}
         st["stoptime"] = float(stop)
-        st["lock"] = bool(locked)
         st["settings_log"], st["results_log"] = {}, {}
         self.session_state = TraceDict(st, self)
+        self._flag_attr = world.flag_attr
+        self._flagval = False
+        self.flag_set_raw(bool(locked))
+
+    def flag_get_raw(self):
+        if self._flag_attr is not None:
+            return self._flagval
+        return bool(dict.get(self.session_state, "lock", False))
+
+    def flag_set_raw(self, v):
+        if self._flag_attr is not None:
+            self._flagval = v
+        else:
+            dict.__setitem__(self.session_state, "lock", v)
 
     def __getattr__(self, name):                     # everything else: the real class's code, bound to the stub
         import types
@@ -895,7 +968,7 @@ class StubInstance:
             return
         if rw == "R":
             self.rec("RL")
-            if not dict.__getitem__(self.session_state, "lock"):
+            if not self.flag_get_raw():
                 self.free_reads += 1
                 if self.take_after_reads is not None and self.free_reads == self.take_after_reads:
                     self._take = True                            # another request acquires right after this read
@@ -905,7 +978,7 @@ class StubInstance:
     def after_read(self):
         if getattr(self, "_take", False):
             self._take = False
-            dict.__setitem__(self.session_state, "lock", True)
+            self.flag_set_raw(True)
 
 
 PROGRAM_PATHS = [
@@ -932,7 +1005,17 @@ PROGRAM_PATHS = [
 def trace_program(world, kind, n, stop, opt):
     """Run one handler alone, under sys.settrace, against a recording stub; returns the recorded shared accesses."""
     world.reset(5)
-    stub = StubInstance(world, stop, locked=opt.get("locked", False), take_after_reads=opt.get("take"))
+    stub_cls = StubInstance
+    if world.flag_attr is not None:                    # the flag is an attribute of the instance: a recording property
+        def fget(obj):
+            obj.lock_access("R", None)
+            return obj._flagval
+
+        def fset(obj, v):
+            obj.lock_access("W", v)
+            obj.__dict__["_flagval"] = v
+        stub_cls = type("StubInstanceAttr", (StubInstance,), {world.flag_attr: property(fget, fset)})
+    stub = stub_cls(world, stop, locked=opt.get("locked", False), take_after_reads=opt.get("take"))
     if "clock" in opt:
         dict.__setitem__(stub.session_state, "step", float(opt["clock"]))
     entry = world.app._instance_manager._instances[world.id]
@@ -1006,7 +1089,7 @@ def trace_program(world, kind, n, stop, opt):
     out["labels"] = [l for l, w in stub.trace]
     out["where"] = [f"{l}@{w[0]}:{w[1]}" if w else f"{l}@client" for l, w in stub.trace]
     out["lines"] = len(lines)
-    out["locked_at_end"] = bool(dict.__getitem__(stub.session_state, "lock"))
+    out["locked_at_end"] = bool(stub.flag_get_raw())
     return out
 
 
@@ -1128,11 +1211,12 @@ def session_race(world, which, at):
             "run-step accepted while run-steps in progress": o1["status"] == 200 and not ("locked" in o1["body"])}
 
 
-def execute_no_reset(world, scn, chooser):
+def execute_no_reset(world, scn, chooser, fail=None, mode="action"):
     n = len(scn.kinds)
-    CTL.reset(chooser, "action")
+    CTL.reset(chooser, mode)
+    CTL.fail = dict(fail or {})
     out = {}
-    ths = [threading.Thread(target=world.request, args=(i, k, nn, None, out), daemon=True) for i, (k, nn) in enumerate(scn.kinds)]
+    ths = [threading.Thread(target=world.request, args=(i, k, nn, scn.gone.get(i), out), daemon=True) for i, (k, nn) in enumerate(scn.kinds)]
     try:
         for i, t in enumerate(ths):
             t.start()
@@ -1146,6 +1230,217 @@ def execute_no_reset(world, scn, chooser):
     rec = {"log": list(CTL.log), "out": [out[i] for i in range(n)]}
     CTL.reset(None, "off")
     return rec
+
+
+# ------------------------------------------------------------------------------------------- session lifecycle (wave 5)
+SFACTS = ["flagOnInstance", "lockNeedsSession", "unlockNeedsSession", "sessionReqExcluded"]
+SREQ = {"end": "E", "begin": "B", "restore": "R"}
+
+
+def session_request(world, which):
+    """a session request performed on the controller thread while every request thread is parked; returns 'done' | 'refused'"""
+    if which == "begin":
+        ok = world._begin().status_code == 200
+    elif which == "end":
+        ok = world.client.post(f"/{world.id}/end-session").status_code == 200
+    else:                                        # restore: the instance manager puts a stored session state back (_set_state)
+        import copy
+        st = copy.deepcopy(world.template_state)
+        st["lock"] = False
+        try:
+            type(world.inst)._set_state(world.inst, st)
+            ok = True
+        except Exception:                         # noqa: BLE001
+            ok = False
+    world.rewrap()
+    return "done" if ok else "refused"
+
+
+def probe_sessions(world):
+    """where the flag lives and what lock()/unlock()/the session handlers do without / with a session (raw calls, no threads)"""
+    inst, cls = world.inst, type(world.inst)
+    f = {"flagOnInstance": world.flag_attr is not None}
+    world.reset(5)
+    world.template_state = {k: dict.__getitem__(inst.session_state, k) for k in dict.keys(inst.session_state)}
+    st = inst.session_state
+    inst.session_state = None
+    cls.lock(inst)
+    f["lockNeedsSession"] = not bool(cls.is_locked(inst))
+    world.flag_force(False)
+    inst.session_state = st
+    world.flag_force(False)
+    cls.lock(inst)
+    inst.session_state = None
+    cls.unlock(inst)
+    inst.session_state = st
+    f["unlockNeedsSession"] = bool(cls.is_locked(inst))
+    world.flag_force(False)
+    cls.lock(inst)
+    r1 = world._begin().status_code
+    still = bool(cls.is_locked(inst)) if f["flagOnInstance"] else None
+    world.flag_force(False)
+    world.reset(5)
+    cls.lock(inst)
+    r2 = world.client.post(f"/{world.id}/end-session").status_code
+    world.flag_force(False)
+    f["sessionReqExcluded"] = r1 != 200 and r2 != 200
+    f["_detail"] = {"flag": ("attribute " + world.flag_attr) if world.flag_attr else 'session_state["lock"]',
+                    "begin-session while locked": r1, "end-session while locked": r2}
+    world.reset(5)
+    return f
+
+
+def session_runs(world, quick, rng):
+    """A = a stream (stop time 1) or a run-steps 3 (request 0); at EVERY action boundary k of A a session request
+    (end-session, begin-session, restore) arrives on a thread of its own; then a run-step C (request 1) arrives and ends;
+    then A ends — by completion, by an injected simulation failure in its next step, or (stream) by its client going away;
+    afterwards the liveness probe: begin-session + run-step must be answered 200.  Variant `nosession` (source-line level):
+    A starts without a session (end-session before it), a begin-session arrives after k of A's source lines."""
+    for kind, stop in ((("s", 0), 1), (("r", 3), 5)):
+        base = execute(world, Scn(stop, [kind]), "action")
+        acts = [l for l in base["log"] if not l[3]]
+        for k in range(0, len(acts) + 1):
+            sims = sum(1 for l in acts[:k] if l[1] == "SIM")
+            ys = sum(1 for l in acts[:k] if l[1] == "Y")
+            endings = [("complete", {}, {}), ("error", {0: sims}, {})]
+            if kind[0] == "s":
+                endings.append(("gone", {}, {0: ys}))
+            for which in ("end", "begin", "restore"):
+                for ename, fail, gone in endings:
+                    yield session_run(world, kind, stop, k, which, ename, fail, gone, False)
+    TRACER.setup()
+    for kind, stop in ((("r", 3), 5), (("s", 0), 1)):
+        probe_run = session_run(world, kind, stop, 10 ** 6, "begin", "complete", {}, {}, True)
+        total = probe_run.get("a_steps", 0)
+        ks = list(range(0, total + 1))
+        if quick and len(ks) > 14:
+            ks = sorted(rng.shuffle(ks)[:14])
+        for k in ks:
+            yield session_run(world, kind, stop, k, "begin", "complete", {}, {}, True)
+
+
+def session_run(world, kind, stop, k, which, ename, fail, gone, nosession):
+    """action mode: k = number of A's actions before the session request; nosession (line mode): k = number of A's line steps"""
+    scn = Scn(stop, [kind, ("p", 0)], fail=fail, gone=gone)
+    world.reset(stop)
+    if nosession:
+        session_request(world, "end")
+    st = {"phase": 0, "sreq": None, "at": None, "a_steps": 0, "a_tried": False, "a_tried_before": False, "a_done_before": False}
+
+    def chooser(enabled, pending, current, kk):
+        if st["phase"] == 0:
+            progressed = st["a_steps"] if nosession else sum(1 for l in CTL.log if l[0] == 0 and not l[3])
+            if 0 in enabled and progressed < k:
+                if nosession:
+                    st["a_steps"] += 1
+                    p = pending.get(0)
+                    txt = TRACER.src.get(p, "") if isinstance(p, tuple) else ""
+                    if (isinstance(p, tuple) and p[0] == "bptk.try_lock" and txt.startswith("with ")) or \
+                            (not world.has_try_lock and isinstance(p, tuple) and ".lock()" in txt):
+                        st["a_tried"] = True                 # after this step the guarded section has run
+                    if isinstance(p, tuple) and p[0] == "bptk.unlock":
+                        st["in_unlock"] = True               # the request is inside unlock()
+                return 0
+            st["a_tried_before"] = st["a_tried"]
+            p0 = pending.get(0) if 0 in enabled else None
+            left_unlock = st.get("in_unlock", False) and not (isinstance(p0, tuple) and p0[0] == "bptk.unlock")
+            st["a_done_before"] = 0 not in enabled or left_unlock or any(l[0] == 0 and l[1] == "CL" for l in CTL.log)
+            st["sreq"] = session_request(world, which)
+            st["at"] = len(CTL.log)
+            st["phase"] = 1
+        if st["phase"] == 1:
+            if 1 in enabled:
+                return 1
+            st["phase"] = 2
+        return 0 if 0 in enabled else enabled[0]
+    try:
+        rec = execute_no_reset(world, scn, chooser, fail=fail, mode="line" if nosession else "action")
+    except Exception as e:                                   # noqa: BLE001
+        world.flag_force(False)
+        return {"error": f"{type(e).__name__}: {e}", "scn": scn, "k": k, "which": which, "ending": ename, "nosession": nosession}
+    if st["sreq"] is None:                                   # A ended before boundary k was reached: the request arrives now
+        st["a_tried_before"], st["a_done_before"] = st["a_tried"], True
+        st["sreq"] = session_request(world, which)
+        st["at"] = len(rec["log"])
+    flag_after = world.is_locked_now()
+    b = world._begin()
+    world.rewrap()
+    alive = world.client.post(f"/{world.id}/run-step", json={"settings": {}})
+    live = {"begin-session": b.status_code, "run-step": alive.status_code, "body": alive.data.decode()[:60]}
+    if world.is_locked_now():
+        world.flag_force(False)
+    r = {"scn": scn, "k": k, "which": which, "ending": ename, "nosession": nosession, "log": rec["log"], "out": rec["out"],
+         "sreq": st["sreq"], "at": st["at"], "flag_after": flag_after, "live": live, "a_steps": st["a_steps"],
+         "a_done_before": st["a_done_before"]}
+    if nosession:
+        r["a_tried_before"] = st["a_tried_before"]
+    else:
+        first = next((i for i, l in enumerate(rec["log"]) if l[0] == 0 and not l[3] and
+                      (l[1] in ("TAS", "SL") or (l[1] == "RL" and _refused_as_locked(rec["out"][0])))), None)
+        r["a_tried_before"] = first is not None and first < st["at"]
+    return r
+
+
+def _refused_as_locked(o):
+    return o["status"] == 500 and "locked" in o["body"]
+
+
+def session_events(r):
+    """the run as a schedule of the session machine (three requests: A, C, the liveness run-step) and what the real side
+    observed for each event; returns (events of the run itself, events of the liveness probe, observations)"""
+    a, c = r["out"]
+    acc = lambda o: "refused" if _refused_as_locked(o) else "accepted"
+    ev, obs = [], []
+    if r["a_tried_before"]:
+        ev.append("a0"); obs.append(acc(a))
+        if r["a_done_before"] and acc(a) == "accepted":
+            ev.append("f0"); obs.append("ended")
+    ev.append(SREQ[r["which"]]); obs.append(r["sreq"])
+    ev.append("a1"); obs.append(acc(c))
+    if acc(c) == "accepted":
+        ev.append("f1"); obs.append("ended")
+    if not r["a_tried_before"]:
+        ev.append("a0"); obs.append(acc(a))
+    if acc(a) == "accepted" and not (r["a_tried_before"] and r["a_done_before"]):
+        ev.append("f0"); obs.append("ended")
+    live = ["B", "a2"]
+    lobs = ["done" if r["live"]["begin-session"] == 200 else "refused",
+            "refused" if (r["live"]["run-step"] == 500 and "locked" in r["live"]["body"]) else "accepted"]
+    return ev, live, obs + lobs
+
+
+def judge_session_run(r):
+    """the statement on a run with a session request: [(key, text)]"""
+    out = []
+    if "error" in r:
+        return [("harness-exception", r["error"])]
+    log = [l for l in r["log"] if not l[3]]
+    a, c = r["out"]
+    a_acq = next((i for i, l in enumerate(r["log"]) if l[0] == 0 and (l[1] == "SL" or (l[1] == "TAS" and l[2]))), None)
+    a_steps_after = any(l[0] == 0 and l[1] in ("SIM", "WS") and i >= r["at"] for i, l in enumerate(r["log"]))
+    a_in_progress = r["a_tried_before"] and not _refused_as_locked(a)
+    a_unfinished = not r["a_done_before"]
+    c_stepped = any(l[0] == 1 and l[1] in ("SIM", "WS") for l in r["log"])
+    if a_in_progress and a_unfinished and not _refused_as_locked(c) and c_stepped:
+        out.append(("session-request-resets-lock",
+                    f"{r['which']}-session arrived while request 0 ({r['scn'].kinds_str().split(',')[0]}) was in progress "
+                    f"(after {r['k']} of its actions{', started without a session' if r['nosession'] else ''}); the run-step that arrived next was "
+                    f"answered {c['status']} with step(s) {c['times']} although request 0 had not ended"
+                    f"{' and went on stepping afterwards' if a_steps_after else ''}"))
+    if r["live"]["run-step"] != 200:
+        out.append(("lock-outlives-session",
+                    f"{r['which']}-session arrived after {r['k']} actions of request 0 ({r['scn'].kinds_str().split(',')[0]}), which then ended by "
+                    f"{r['ending']}; all requests have ended, yet after a new begin-session ({r['live']['begin-session']}) a run-step is answered "
+                    f"{r['live']['run-step']} {r['live']['body']}"))
+    return out
+
+
+def session_replay_of(r, text):
+    return {"session_run": {"kind": list(r["scn"].kinds[0]), "stop": r["scn"].stop, "k": r["k"], "which": r["which"], "ending": r["ending"],
+                            "fail": r["scn"].fail, "gone": r["scn"].gone, "nosession": r["nosession"]},
+            "actions": [f"{t}:{l}" for t, l, i, f in r.get("log", []) if not f], "session_request_at": r.get("at"),
+            "responses": [{"status": o["status"], "times": o["times"], "body": o["body"][:80]} for o in r.get("out", [])],
+            "liveness": r.get("live"), "observed": text}
 
 
 # ------------------------------------------------------------------------------------------- probes
@@ -1195,7 +1490,26 @@ MUTEX_FACTS = ["lockIsTestAndSet", "runStepTakesLock", "refusalKeepsLock"]
 RELEASE_FACTS = ["streamUnlocksOnDone", "unlockOnError", "unlockOnClientGone"]
 
 
-def gen_lean(f, progs=()):
+def gen_sessions(sf):
+    b = lambda x: "true" if x else "false"
+    cfg = ", ".join(f"{k} := {b(sf[k])}" for k in SFACTS)
+    mutex_ok = sf["flagOnInstance"] and not sf["lockNeedsSession"]
+    leak_free = (not sf["flagOnInstance"]) or (not sf["unlockNeedsSession"]) or (sf["sessionReqExcluded"] and sf["lockNeedsSession"])
+    t = f"/-! session lifecycle: where the lock flag lives (probed) -/\ndef scfg : Sess.SCfg := {{ {cfg} }}\n"
+    if mutex_ok:
+        t += "theorem sess_mutex_holds : Sess.SessMutex scfg := Sess.C18_mutex_sessions scfg (by decide)\n#print axioms sess_mutex_holds\n"
+    else:
+        t += ("theorem sess_mutex_violated : ¬ Sess.SessMutex scfg := fun h => absurd ((Sess.sess_mutex_iff scfg).mp h) (by decide)\n"
+              "#print axioms sess_mutex_violated\n")
+    if leak_free:
+        t += "theorem sess_no_leak_holds : Sess.SessNoLeak scfg := Sess.C18_no_leak scfg (by decide)\n#print axioms sess_no_leak_holds\n"
+    else:
+        t += ("theorem sess_no_leak_violated : ¬ Sess.SessNoLeak scfg := fun h => absurd ((Sess.sess_no_leak_iff scfg).mp h) (by decide)\n"
+              "#print axioms sess_no_leak_violated\n")
+    return t, mutex_ok, leak_free
+
+
+def gen_lean(f, progs=(), sf=None):
     b = lambda x: "true" if x else "false"
     cfg = ", ".join(f"{k} := {b(f[k])}" for k in FACTS)
     body = ""
@@ -1219,6 +1533,8 @@ def gen_lean(f, progs=()):
     body += ("theorem holds_solo (stop : Nat) (k : Kind) (sched : Schedule) :\n"
              "    ClMutex cfg (run cfg (State.init stop [k]) sched) ∧ ClConsec (run cfg (State.init stop [k]) sched) := C18_solo cfg stop k sched\n"
              "#print axioms holds_solo\n#print axioms C18_partial\n")
+    if sf is not None:
+        body += gen_sessions(sf)[0]
     if progs:
         body += "/-! thread programs: the accesses recorded from each handler run alone against the recording stub -/\n"
         for o in progs:
@@ -1252,7 +1568,10 @@ def _run(chk, world):
     chk.cov["traced_handler_lines"] = sum(o["lines"] for o in progs)
     stub_facts = facts_from_programs({o["name"]: o for o in progs})
     chk.notes["cfg_from_traced_programs"] = stub_facts
-    ok, why = chk.prove(gen_lean(facts, obls))
+    sfacts = probe_sessions(world)
+    chk.notes["session_cfg"] = {k: sfacts[k] for k in SFACTS}
+    chk.notes["session_cfg_detail"] = sfacts["_detail"]
+    ok, why = chk.prove(gen_lean(facts, obls, sfacts))
     chk.cov["trusted_base"] = [
         "Lean 4.33 kernel; axioms propext, Classical.choice, Quot.sound (audited per run via #print axioms)",
         "thread programs of lean/Bptk/Core/C18.lean (run-step / run-steps / stream-steps handlers, bptk.run_step, lock/unlock/is_locked/try_lock) at the granularity of accesses to the lock flag, the session clock, the simulation call and the chunks handed to the client; tied to /repo by the six probed mechanism facts, by the per-run obligations prog_* (the accesses recorded from each handler run alone under sys.settrace against a recording stub — completion, error, client-gone, refusal and stop-time paths — equal the model's program, decided in the kernel) and by the label-by-label and outcome comparison of every forced schedule",
@@ -1262,7 +1581,7 @@ def _run(chk, world):
     chk.assumptions = [
         "requests reach the handlers as WSGI calls (Flask routing/werkzeug response iteration are not modelled); a client disconnect is the server closing the response iterable",
         "session dt = 1, start 0 (time = number of steps); simulation values are not compared, only times",
-        "begin-session/end-session are not step-advancing requests and are outside the statement's quantifier (schedules of stepping requests); what a begin-session/end-session racing with a stepping request does is probed and reported in notes.session_race (informational)",
+        "session requests (begin-session, end-session, restore) are modelled by the session machine (Bptk.C18.Sess) only as far as the lock is concerned: a request is pre / holding / ended there; what a session request does to the clock and to the steps of a running request (a response mixing two sessions) is not part of the statement",
     ]
     two, extra, three = scenarios(chk)
     cases = [(scn, rec, "action") for scn, rec in facts["_runs"]]                      # (scn, rec, mode)
@@ -1343,10 +1662,38 @@ def _run(chk, world):
             cases.append((scn, execute(world, scn, "line", switches=sw), "line"))
             nline += 1
         dist[f"line-level {scn.kinds_str()}: line steps of the serial run"] = total
-    chk.notes["session_race"] = {
-        "scope": "begin-session / end-session are not step-advancing requests: schedules containing them are outside C18's quantifier; informational",
-        "begin-session inside run-steps 3 (after its first step), then run-step": session_race(world, "begin", 5),
-        "end-session inside run-steps 3 (after its first step), then run-step": session_race(world, "end", 5)}
+    # session lifecycle: a session request at every action boundary of a stream / a run-steps, all endings, liveness probe
+    sruns = list(session_runs(world, chk.quick, rng))
+    sfound, sdiff = {}, None
+    cfg4 = " ".join("1" if sfacts[k] else "0" for k in SFACTS)
+    sreq_lines, smeta = [], []
+    for r in sruns:
+        if "error" in r:
+            continue
+        ev, live, obs = session_events(r)
+        s0 = "0" if r["nosession"] else "1"
+        sreq_lines.append(f"srun {cfg4} {s0} 3 {','.join(ev)}")
+        sreq_lines.append(f"srun {cfg4} {s0} 3 {','.join(ev + live)}")
+        smeta.append((r, ev, live, obs))
+    sreplies = drive("C18", sreq_lines) if sreq_lines else []
+    nviol = {"session-request-resets-lock": 0, "lock-outlives-session": 0}
+    for idx, r in enumerate(sruns):
+        chk.case(("session", r["scn"].key(), r["k"], r["which"], r["ending"], r["nosession"]), nontrivial=True)
+        for key, text in judge_session_run(r):
+            nviol[key] = nviol.get(key, 0) + 1
+            if key not in sfound:
+                sfound[key] = (r, text)
+    for j, (r, ev, live, obs) in enumerate(smeta):
+        m1, m2 = sreplies[2 * j], sreplies[2 * j + 1]
+        mflag = m1.split("|")[1].split(";")[0] == "flag=1"
+        mout = m2.split("|")[0].split(",")
+        if sdiff is None and (mout != obs or mflag != r["flag_after"]):
+            sdiff = (r, f"events {','.join(ev + live)}: model {mout} flag_after={mflag} impl {obs} flag_after={r['flag_after']}", sreq_lines[2 * j + 1], m2)
+    dist["session lifecycle: stream (stop 1) and run-steps 3 x every action boundary x {end-session, begin-session, restore} x {completion, "
+         "error in the next step, client gone (stream)} + begin-session at source-line positions of a request started without a session; "
+         "then a run-step, then the liveness probe"] = len(sruns)
+    chk.cov["session_runs"] = {"runs": len(sruns), "judged_violating": nviol, "errors": sum(1 for r in sruns if "error" in r)}
+    chk.cov["traces_validated_against_impl_sessions"] = len(smeta)
     chk.cov["input_distribution"] = dist
     chk.cov["line_level_runs"] = nline
     chk.cov["refusal_sandwiches_realised"] = realised
@@ -1394,6 +1741,21 @@ def _run(chk, world):
         if probe_keys[k] not in found:
             chk.add_finding(probe_keys[k], f"probe {k} = false but no schedule explored exhibits the violation",
                             {"probe": k, "solo_labels": facts["_solo_labels"]}, found_input=False)
+    smutex_ok, sleak_free = gen_sessions(sfacts)[1:]
+    for key, (r, text) in sfound.items():
+        chk.add_finding(key, text, session_replay_of(r, text))
+    if not smutex_ok and "session-request-resets-lock" not in sfound:
+        chk.add_finding("session-request-resets-lock", f"session facts {chk.notes['session_cfg']}: mutual exclusion under session requests is refuted "
+                        "in the model (sess_mutex_violated) but no explored schedule exhibits it", {"session_cfg": chk.notes["session_cfg"]}, found_input=False)
+    if not sleak_free and "lock-outlives-session" not in sfound:
+        chk.add_finding("lock-outlives-session", f"session facts {chk.notes['session_cfg']}: a lock leak is possible in the model (sess_no_leak_violated) "
+                        "but no explored schedule exhibits it", {"session_cfg": chk.notes["session_cfg"]}, found_input=False)
+    if sdiff is not None and not sfound:
+        r, d, rq, rp = sdiff
+        chk.add_finding("correspondence", f"session machine and implementation disagree: {d}", dict(session_replay_of(r, d), request=rq, model_reply=rp),
+                        found_input=False)
+    elif sdiff is not None:
+        chk.notes["session_model_diff_under_violation"] = sdiff[1]
     badp = [o for o in obls if not o["ok"]]
     if badp and not found:
         o = badp[0]
@@ -1429,6 +1791,22 @@ def replay_of(scn, rec, mode, text):
 def replay(path):
     quiet_bptk_logging()
     r = json.load(open(path))["replay"]
+    if "session_run" in r:
+        q = r["session_run"]
+        world = World()
+        try:
+            probe_sessions(world)
+            if q["nosession"]:
+                TRACER.setup()
+            res = session_run(world, tuple(q["kind"]), q["stop"], q["k"], q["which"], q["ending"], q["fail"], q["gone"], q["nosession"])
+        finally:
+            world.close()
+        v = judge_session_run(res)
+        print("session run:", q)
+        print("actions:", " ".join(f"{t}:{l}" for t, l, i, f in res.get("log", []) if not f), "| session request after log index", res.get("at"))
+        print("responses:", [(o["status"], o["times"], o["body"][:40]) for o in res.get("out", [])], "liveness:", res.get("live"))
+        print("violations on the current tree:", v)
+        return 1 if v else 0
     if "scenario" not in r:
         print("nothing to replay (no concrete schedule stored):", r)
         return 1
